@@ -16,7 +16,8 @@ class Fault(Exception):
 
 class WrapFS(LocalFileSystem):
     """LocalFileSystem that counts / logs its calls; `plan` maps a call number to a fault kind:
-    'oserror' | 'fnf' (raise before the effect), 'stale' (ls returns a strict subset), 'partial' (open for writing creates a
+    'oserror' | 'fnf' (raise before the effect), 'stale' / 'stale-last' / 'stale-first' (ls returns a strict subset: without its last entry as
+    listed / without the last / first one in name order), 'partial' (open for writing creates a
     truncated file, then raises).  `delay` is a function(call_no, name) -> seconds."""
     cachable = False
 
@@ -31,6 +32,7 @@ class WrapFS(LocalFileSystem):
         self.per_name = {}
         self.opens = []            # (path, mode) of every open
         self.moves = []            # (source, destination) of every move / mv
+        self._path_fired = set()
 
     def _enter(self, name, args):
         with self._lock:
@@ -48,7 +50,14 @@ class WrapFS(LocalFileSystem):
                 time.sleep(d)
         # a plan key is a global call number or (method name, j) = the j-th call of that method
         kind = self.plan.get(k) or self.plan.get((name, j))
-        if kind == "stale" and name != "ls":
+        if kind is None and args:
+            # (method name, "@<basename>"): the first call of that method on a path with that last component (independent of the order
+            # in which Dask happens to run the tasks)
+            key = (name, "@" + os.path.basename(str(args[0]).rstrip("/")))
+            if key in self.plan and key not in self._path_fired:
+                self._path_fired.add(key)
+                kind = self.plan[key]
+        if kind in ("stale", "stale-last", "stale-first") and name != "ls":
             kind = None
         if kind == "partial" and not (name == "open" and len(args) > 1 and "w" in str(args[1])):
             kind = None
@@ -67,9 +76,14 @@ def _wrap(name):
             raise OSError(f"injected transient fault at call {len(self.calls)} ({name})")
         if kind == "fnf":
             raise FileNotFoundError(f"injected transient fault at call {len(self.calls)} ({name})")
-        if kind == "stale" and name == "ls":
+        if kind in ("stale", "stale-last", "stale-first") and name == "ls":
             res = base(self, *args, **kwargs)
-            return res[:-1] if len(res) else res
+            if kind == "stale" or len(res) == 0:
+                return res[:-1] if len(res) else res
+            # the entry missing from the listing is the last / first one in name order
+            key = (lambda e: e["name"] if isinstance(e, dict) else str(e))
+            drop = sorted(res, key=key)[-1 if kind == "stale-last" else 0]
+            return [e for e in res if e is not drop]
         if kind == "partial" and name == "open" and len(args) > 1 and "w" in str(args[1]):
             with base(self, *args, **kwargs) as fh:
                 fh.write(b"PAR1trunc")
